@@ -76,8 +76,28 @@ func (r ref) lookup(p string) (kind string, name string, id int, names []string)
 
 var ir *fast.Interp
 
+// Coq parses long numeric list literals slowly: every distinct string / frequent term is emitted once as a
+// `Definition` in the header of the cases files and referenced by name (same terms after delta-reduction).
+var (
+	litID   = map[string]string{}
+	litDefs []string
+)
+
+func intern(prefix, typ, term string) string {
+	k := prefix + "\x00" + term
+	if id, ok := litID[k]; ok {
+		return id
+	}
+	id := fmt.Sprintf("%s%d", prefix, len(litID))
+	litID[k] = id
+	litDefs = append(litDefs, fmt.Sprintf("Definition %s : %s := %s.", id, typ, term))
+	return id
+}
+
+func cs(s string) string { return intern("s_", "str", vh.CoqStr(s)) }
+
 func coqCmd(name string, id int) string {
-	return fmt.Sprintf("(mkCmd %s %d%%N)", vh.CoqStr(name), id)
+	return fmt.Sprintf("(mkCmd %s %d%%N)", cs(name), id)
 }
 
 // runHistory executes ops on the real implementation; returns Coq renderings of ops, observed outs, final listing
@@ -103,7 +123,7 @@ func runHistory(ops []op, rep *vh.Report, idx int) (string, string, string) {
 				fail("Add result", got, want)
 			}
 			cops = append(cops, "OAdd "+coqCmd(o.Name, o.ID))
-			couts = append(couts, "RBool "+vh.CoqBool(got))
+			couts = append(couts, intern("r_", "out", "RBool "+vh.CoqBool(got)))
 		case "del":
 			var got bool
 			if p := vh.Catch(func() { got = fast.Commands.Del(o.Name) }); p != nil {
@@ -114,15 +134,15 @@ func runHistory(ops []op, rep *vh.Report, idx int) (string, string, string) {
 			if got != want {
 				fail("Del result", got, want)
 			}
-			cops = append(cops, "ODel "+vh.CoqStr(o.Name))
-			couts = append(couts, "RBool "+vh.CoqBool(got))
+			cops = append(cops, intern("o_", "op", "ODel "+cs(o.Name)))
+			couts = append(couts, intern("r_", "out", "RBool "+vh.CoqBool(got)))
 		case "look":
 			var c fast.Cmd
 			var err error
 			if p := vh.Catch(func() { c, err = fast.Commands.Lookup(o.Name) }); p != nil {
 				fail("Lookup panicked", fmt.Sprint(p), nil)
 				couts = append(couts, "RLook Crash")
-				cops = append(cops, "OLookup "+vh.CoqStr(o.Name))
+				cops = append(cops, intern("o_", "op", "OLookup "+cs(o.Name)))
 				continue
 			}
 			kind, wname, wid, wnames := r.lookup(o.Name)
@@ -135,7 +155,7 @@ func runHistory(ops []op, rep *vh.Report, idx int) (string, string, string) {
 				}
 				rep.Dist("lookup:found")
 			case err == io.EOF:
-				out = "RLook NoMatch"
+				out = intern("r_", "out", "RLook NoMatch")
 				if kind != "none" {
 					fail("Lookup", "none", fmt.Sprint(kind, " ", wname, wnames))
 				}
@@ -144,7 +164,7 @@ func runHistory(ops []op, rep *vh.Report, idx int) (string, string, string) {
 				names := strings.Split(err.Error(), " ")
 				var cn []string
 				for _, n := range names {
-					cn = append(cn, vh.CoqStr(n))
+					cn = append(cn, cs(n))
 				}
 				out = "RLook (Ambiguous " + vh.CoqList(cn, "str") + ")"
 				sorted := append([]string(nil), names...)
@@ -154,7 +174,7 @@ func runHistory(ops []op, rep *vh.Report, idx int) (string, string, string) {
 				}
 				rep.Dist("lookup:ambiguous")
 			}
-			cops = append(cops, "OLookup "+vh.CoqStr(o.Name))
+			cops = append(cops, intern("o_", "op", "OLookup "+cs(o.Name)))
 			couts = append(couts, out)
 		case "disp":
 			// o.Name is the full input including ':' (no surrounding white space)
@@ -172,13 +192,13 @@ func runHistory(ops []op, rep *vh.Report, idx int) (string, string, string) {
 			var out string
 			switch {
 			case lastRun.hit:
-				out = fmt.Sprintf("RDisp (RunCmd %s %s)", coqCmd(nameOfID(r, lastRun.id), lastRun.id), vh.CoqStr(lastRun.arg))
+				out = fmt.Sprintf("RDisp (RunCmd %s %s)", coqCmd(nameOfID(r, lastRun.id), lastRun.id), cs(lastRun.arg))
 				if kind != "found" || wid != lastRun.id {
 					fail("Cmd dispatch", fmt.Sprint("ran ", lastRun.id), kind)
 				}
 				rep.Dist("dispatch:run")
 			case opt&base.CmdOptForceEval != 0:
-				out = "RDisp (EvalAsCode " + vh.CoqStr(src) + ")"
+				out = "RDisp (EvalAsCode " + cs(src) + ")"
 				// property: an unknown ':'-prefixed input is evaluated as code (the text after ':')
 				if kind != "none" || strings.TrimSpace(src) != strings.TrimSpace(o.Name[1:]) {
 					fail("Cmd dispatch", "eval "+src, kind)
@@ -191,7 +211,7 @@ func runHistory(ops []op, rep *vh.Report, idx int) (string, string, string) {
 				}
 				rep.Dist("dispatch:ambiguous")
 			}
-			cops = append(cops, "ODispatch "+vh.CoqStr(o.Name))
+			cops = append(cops, intern("o_", "op", "ODispatch "+cs(o.Name)))
 			couts = append(couts, out)
 		}
 	}
@@ -348,12 +368,12 @@ func main() {
 		hist = append(hist, ops)
 	}
 
-	cw := vh.NewCases(a, "From Coq Require Import List NArith ZArith.\nFrom Verif Require Import Common.GoStr C37.Model.\nImport ListNotations.\nOpen Scope Z_scope.", "case", "mismatches", 100)
 	wd := vh.NewWatchdog(rep, 10*time.Second)
+	var terms []string
 	for idx, ops := range hist {
 		wd.Beat(ops)
 		co, cr, cl := runHistory(ops, rep, idx)
-		cw.Add(fmt.Sprintf("mkCase %d %s %s %s", idx, co, cr, cl))
+		terms = append(terms, fmt.Sprintf("mkCase %d %s %s %s", idx, co, cr, cl))
 		nontriv := false
 		reg := map[byte]bool{}
 		for _, o := range ops {
@@ -370,6 +390,16 @@ func main() {
 			rep.Sample(ops)
 		}
 		rep.CaseInput(idx, ops)
+	}
+	// second pass: the header carries the interned definitions collected while running the histories.
+	// Starting coqc costs several seconds per file on a loaded machine: thorough uses 400 histories per shard (<= 32 shards).
+	perShard := 100
+	if a.Thorough() {
+		perShard = 400
+	}
+	cw := vh.NewCases(a, "From Coq Require Import List NArith ZArith.\nFrom Verif Require Import Common.GoStr C37.Model.\nImport ListNotations.\nOpen Scope Z_scope.\n"+strings.Join(litDefs, "\n"), "case", "mismatches", perShard)
+	for _, t := range terms {
+		cw.Add(t)
 	}
 	cw.Close()
 	rep.Extra["exhaustive_tables_upto2"] = nExh
